@@ -106,7 +106,7 @@ def check(ctx, run):
         run.analysed(f)
         paths = enumerate_paths(f, stop=failwith_stop)
         for p in paths:
-            v = {k.replace("(SimpleString)", ""): x for k, x in p.val().items()}
+            v = {k.replace("(SimpleString)", ""): x for k, x in origin_val(f, p).items()}
             calls = path_calls(prog, f, p)
             names = [(prog.callee_name(f, c) or "") for c in calls]
             nchk = names.count("TestResult::countCheck")
@@ -237,7 +237,8 @@ def check(ctx, run):
             pts = {q["name"]: q["ct"] for q in f.params}
             for q, a in zip(g.params if g else [], args):
                 if q["name"] in ("expected", "actual") and q["ct"] == "const char *" and meth == "assertEquals":
-                    if q["name"] not in render(f, a):
+                    used = {x["name"] for x in f.walk(a) if x["k"] == "DeclRefExpr" and x.get("dk") == "ParmVar"}
+                    if used != {q["name"]}:
                         why.append("text for %s is built from %s" % (q["name"], render(f, a)))
                     continue
                 if q["name"] in ("expected", "actual", "threshold", "mask", "length", "byteCount"):
@@ -254,10 +255,19 @@ def check(ctx, run):
                         if not ok:
                             why.append("%s is converted %s -> %s, which does not preserve every value" % (leaf["name"], lossy[1], lossy[2]))
             if meth == "assertEquals":
-                a0 = f.strip(args[0])
-                r0 = render(f, args[0], keep_explicit_casts=False)
-                if not re.match(r"^\((!!)?\(?expected\)? != (!!)?\(?actual\)?\)$", r0.replace(" ", " ")) and r0 not in ("(expected != actual)", "(!!expected != !!actual)"):
-                    why.append("failed-flag expression is %s" % r0)
+                # fold the failed-flag expression over operand values: it must be exactly "the operands differ"
+                is_bool = "BOOL" in cname
+                lat = (0, 1, 2, -1) if is_bool else ((0, 1, 65, 127, 200, 255) if "UBYTE" in cname else (0, 1, 65, 127, -1, -128))
+                for e_, a_ in itertools.product(lat, lat):
+                    ev = Evaluator(prog, f, env={"expected": e_, "actual": a_})
+                    try:
+                        got = ev.ev(args[0])
+                    except Unknown as u:
+                        got = "unknown: %s" % u
+                    want = int(bool(e_) != bool(a_)) if is_bool else int(e_ != a_)
+                    if got != want:
+                        why.append("failed flag for (expected=%d, actual=%d) folds to %s, expected %d" % (e_, a_, got, want))
+                        break
             if meth == "assertTrue":
                 v, conv = strip_value(f, args[0])
                 if render(f, v) != "condition" or not conv:
